@@ -115,13 +115,16 @@ Proof. intro H. unfold checked_cell, Unicode.char_from_u32. fold (scalar c). rew
 Lemma scalar_byte c : c <= 255 -> scalar c = true.
 Proof. intro H. unfold scalar, Unicode.scalarb. apply orb_true_intro. left. apply N.ltb_lt. lia. Qed.
 
+Lemma takeN_0 (r : list N) : takeN 0 r = Some ([], r).
+Proof. destruct r; reflexivity. Qed.
+
 Lemma dec_cell_short c f b p a r : a < 16384 -> scalar c = true ->
   dec_cell (le 2 (N.lor a SHORT_DATA) ++ [c; f; b; p] ++ r) = Ok (CSet (mkc c f b p a) r).
 Proof.
   intros Ha Hs. destruct (word_facts a Ha) as (E1 & E2 & E3 & E4 & E5 & _).
   destruct (take2 _ ([c; f; b; p] ++ r) E5) as [T U].
   unfold dec_cell. rewrite T. cbv beta iota zeta. rewrite U, E1, E2. cbn [negb]. cbv iota. rewrite E3, E4.
-  cbn [app takeN N.eqb N.pred Pos.pred_N Pos.pred_double]. apply checked_cell_scalar. exact Hs.
+  cbn [app takeN N.eqb N.pred Pos.pred_N Pos.pred_double]. rewrite takeN_0. apply checked_cell_scalar. exact Hs.
 Qed.
 
 Lemma long_fields (a b c e x : list N) :
@@ -536,6 +539,12 @@ Proof.
 Qed.
 
 Lemma take4_le v r : take 4 (le 4 v ++ r) = Ok (le 4 v, r). Proof. exact (take_le 4 v r). Qed.
+Lemma take_e4_le v r : take_e 4 (le 4 v ++ r) = Ok (le 4 v, r).
+Proof. unfold take_e. change 4 with (N.of_nat 4). now rewrite takeN_le. Qed.
+Lemma take_e_app a r : take_e (N.of_nat (length a)) (a ++ r) = Ok (a, r).
+Proof. unfold take_e. now rewrite takeN_app. Qed.
+Lemma guard_len_ok n (bs : list N) {A} (k : res A) : n <= N.of_nat (length bs) -> guard_len n bs k = k.
+Proof. intro H. unfold guard_len. destruct (N.ltb_spec (N.of_nat (length bs)) n); [lia|reflexivity]. Qed.
 Lemma take2_le v r : take 2 (le 2 v ++ r) = Ok (le 2 v, r). Proof. exact (take_le 2 v r). Qed.
 Lemma take8_le v r : take 8 (le 8 v ++ r) = Ok (le 8 v, r). Proof. exact (take_le 8 v r). Qed.
 Lemma take4_i32 z r : take 4 (i32_bytes z ++ r) = Ok (i32_bytes z, r). Proof. apply take4_le. Qed.
@@ -596,8 +605,12 @@ Proof.
   { (* the decoding: header *)
     destruct (flags_ok L) as (Fu & F1 & F2 & F3 & F4 & F5).
     unfold decode, enc_header. rewrite <- !app_assoc. cbn [app].
-    rewrite take4_le. cbn [bind fst snd]. rewrite unle_le by (change (256 ^ N.of_nat 4) with 4294967296; exact Wtitle).
-    rewrite take_app. cbn [bind fst snd byte skipn]. rewrite (lossy_valid _ Tttl).
+    rewrite take_e4_le. cbn [bind fst snd]. rewrite unle_le by (change (256 ^ N.of_nat 4) with 4294967296; exact Wtitle).
+    rewrite take_e_app. cbn [bind fst snd].
+    rewrite guard_len_ok.
+    2:{ repeat (rewrite ?app_length, ?le_length; cbn [length]). unfold i32_bytes. rewrite ?le_length.
+        destruct (color L) as [[[? ?] ?]|]; cbn [length]; lia. }
+    cbn [bind fst snd byte skipn]. rewrite (lossy_valid _ Tttl).
     assert (Erole : (role_byte (role L) =? 1) = false) by (destruct (role L); try reflexivity; congruence).
     assert (Emode : match mode_byte (mode L) with 0 => Some MNormal | 1 => Some MChars | 2 => Some MAttributes | _ => None end = Some (mode L))
       by (destruct (mode L); reflexivity).
@@ -616,9 +629,7 @@ Proof.
     rewrite (unle_le 2) by (change (256 ^ N.of_nat 2) with 65536; exact Wdfp).
     rewrite (unle_le 8) by (change (256 ^ N.of_nat 8) with 18446744073709551616; unfold MAX_CHUNK in Hlen; lia).
     rewrite Erole.
-    assert (Eov : (18446744073709551616 <=? N.of_nat (length (title L)) + 45 + N.of_nat (length rows)) = false)
-      by (apply N.leb_gt; unfold MAX_CHUNK in Hlen; lia).
-    rewrite Eov, N.ltb_irrefl.
+    rewrite N.ltb_irrefl.
     (* rows *)
     pose proof (cells_ok_all L Wcells) as Cok.
     assert (I0 : Inv L [] (fun _ y' => (y' < 0)%nat)).
